@@ -17,7 +17,7 @@ from ..common import Skip, brief
 ID = "C02"
 CASES = {"quick": 8000, "thorough": 80000}
 FLOOR = {"quick": 6000, "thorough": 60000}
-FLOOR_COUNTERS = {"quick": {"random_starts_from_the_seeded_global_generator": 250, "rejected_calls_in_the_history": 2000, "numpy_scalar_parameters": 1500, "integer_typed_targets": 200, "configured_not_by_constructor": 3000, "non_default_containers": 3000, "integer_typed_inputs": 500, "warm_started_fits": 500, "estimators_with_a_past": 600, "small_unit_fits": 400, "picks_judged": 18000, "ties_at_pick": 500}, "thorough": {"random_starts_from_the_seeded_global_generator": 2500, "rejected_calls_in_the_history": 20000, "numpy_scalar_parameters": 15000, "integer_typed_targets": 2500, "configured_not_by_constructor": 30000, "non_default_containers": 30000, "integer_typed_inputs": 5000, "warm_started_fits": 6000, "estimators_with_a_past": 7000, "small_unit_fits": 4000, "picks_judged": 300000, "ties_at_pick": 6000}}
+FLOOR_COUNTERS = {"quick": {"tables_with_more_than_2^24_numbers": 2, "random_starts_from_the_seeded_global_generator": 250, "rejected_calls_in_the_history": 2000, "numpy_scalar_parameters": 1500, "integer_typed_targets": 200, "configured_not_by_constructor": 3000, "non_default_containers": 3000, "integer_typed_inputs": 500, "warm_started_fits": 500, "estimators_with_a_past": 600, "small_unit_fits": 400, "picks_judged": 18000, "ties_at_pick": 500}, "thorough": {"tables_with_more_than_2^24_numbers": 15, "random_starts_from_the_seeded_global_generator": 2500, "rejected_calls_in_the_history": 20000, "numpy_scalar_parameters": 15000, "integer_typed_targets": 2500, "configured_not_by_constructor": 30000, "non_default_containers": 30000, "integer_typed_inputs": 5000, "warm_started_fits": 6000, "estimators_with_a_past": 7000, "small_unit_fits": 4000, "picks_judged": 300000, "ties_at_pick": 6000}}
 RULE = (
     "case = (FPS | PCov-FPS) x (feature | sample), matrix family (gauss, lattice with exact ties, clustered, duplicated, "
     "scaled, low-rank ...), mixing in {0,.1,.5,.9,.999}, initialisation int/'random'/list/ndarray, n_to_select in [len(init), N]; "
@@ -36,6 +36,9 @@ KINDS = ("gauss", "lattice", "lattice", "near_lattice", "clustered", "dup_rows",
 
 
 def gen(rng, tier, index):
+    if index % 4000 == 11:
+        # a table of more than 2^24 numbers (what a block-wise pass over the data would split): generated in run() from the seed
+        return {"huge": True, "dir": ("sample", "feature")[(index // 4000) % 2], "seed": int(rng.integers(1 << 30)), "start": int(rng.integers(1000)), "n_to_select": int(rng.integers(4, 7))}
     direction = ("feature", "sample")[index % 2]
     cls = ("FPS", "PCovFPS")[(index // 2) % 2]
     hi = 14 if tier == "quick" else 30
@@ -133,7 +136,39 @@ def _run_one(spec, X, y, j, label, warm_at=None, decoy=None):
     return est, tr
 
 
+def _run_huge(case, j):
+    """Plain FPS on 2^21 + a few items of 8 numbers each: judged by a streaming oracle (direct squared differences to the
+    picks made so far), which needs no items x items table."""
+    from skmatter import feature_selection as fs
+    from skmatter import sample_selection as ss
+
+    rg = np.random.default_rng(case["seed"])
+    N, w = (1 << 21) + int(rg.integers(3, 40)), 8
+    A = rg.normal(size=(N, w)) * np.logspace(0, -0.5, w)  # items are rows
+    A[rg.integers(0, N, size=50)] *= 3.0  # some stand out: the leading picks are well separated
+    A[-5:] *= 5.0  # ... among them the very last items of the table
+    X = A if case["dir"] == "sample" else np.ascontiguousarray(A.T)
+    est = (ss if case["dir"] == "sample" else fs).FPS(n_to_select=case["n_to_select"], initialize=case["start"])
+    j.tag(f"{case['dir']}:FPS", "data:more_than_2^24_numbers")
+    j.lib("fit", est.fit, X)
+    idx = [int(i) for i in est.selected_idx_]
+    j.ok("first selection is the requested start", idx[0] == case["start"], idx[:1])
+    h = ((A - A[idx[0]]) ** 2).sum(axis=1)
+    for t in range(1, len(idx)):
+        best = float(h.max())
+        j.ok("pick is a farthest candidate (streaming oracle over all items)", h[idx[t]] >= best * (1 - 1e-9), {"step": t, "picked": idx[t], "its_distance": float(h[idx[t]]), "largest": best, "argmax": int(h.argmax())})
+        h = np.minimum(h, ((A - A[idx[t]]) ** 2).sum(axis=1))
+        j.note("picks_judged")
+    tab = np.asarray(est.hausdorff_, dtype=float)
+    j.close("table after the last commit == true min distance to the selected set (all items)", tab, h, 1e-9 * max(float(h.max()), 1e-300), {"worst_item": int(np.abs(tab - h).argmax())})
+    j.note("tables_with_more_than_2^24_numbers")
+    j.nontrivial = True
+    j.sample = {"items": N, "direction": case["dir"], "selected": idx}
+
+
 def run(case, j):
+    if case.get("huge"):
+        return _run_huge(case, j)
     spec, X, y = case["spec"], case["X"], case["y"]
     if spec.get("how", "ctor") != "ctor":
         j.note("configured_not_by_constructor")
